@@ -318,19 +318,23 @@ theorem elected_eligible (i : Inputs) (sh : Shuffles) (m : VMap) (vis : List Nod
   | worker => exact this.1.2.1.2
   | backup => exact this.2.1.2
 
-/-- **limits_hold.**  The configured limits hold in every epoch transition of the model: between
-`MinValidators` and `max MaxValidators 1` validators, at most `MaxValidatorsPerEntity` per entity; an
-elected committee has exactly `GroupSize` workers and exactly `GroupBackupSize` backup workers — or
-there is no committee at all —, no node twice in a role and at most `MaxNodes` nodes per entity in a role. -/
+/-- **limits_hold.**  The configured limits hold in every epoch transition of the model with
+`MaxValidators ≥ 1` (what genesis and the parameter-change validation guarantee, see
+`reachable_limits_positive`): between `MinValidators` and exactly `MaxValidators` validators, at most
+`MaxValidatorsPerEntity` per entity; an elected committee has exactly `GroupSize` workers and exactly
+`GroupBackupSize` backup workers — or there is no committee at all —, no node twice in a role and at
+most `MaxNodes` nodes per entity in a role.  (Without the hypothesis the count bound is
+`max MaxValidators 1`: `limits_hold_validators`, `maxValidators_nonpositive_elects_one`.) -/
 theorem limits_hold (i : Inputs) (sh : Shuffles) (m : VMap) (vis : List Node)
+    (hmax : 1 ≤ i.p.maxValidators)
     (hE : ∀ l, (sh.entities l).Perm l)
     (hD : ∀ rt role l, (sh.dedup rt role l).Perm l) (hC : ∀ rt role l, (sh.committee rt role l).Perm l)
     (hids : (i.all.map (·.id)).Nodup)
     (hok : validatorsOf i sh = .ok m vis) :
-    validatorLimitsOk i.p false m = true ∧
+    validatorLimitsOk i.p true m = true ∧
     ∀ rt ms, electCommittee i.p i.st sh i.epoch (vis.map (·.entity)) rt (committeeNodes i.p i.epoch i.all) = .elected ms →
       ∀ role, roleLimitsOk rt role (membersOf role ms) = true := by
-  refine ⟨limits_hold_validators i sh m vis hE hok, ?_⟩
+  refine ⟨limits_hold_validators_strict i sh m vis hE hmax hok, ?_⟩
   intro rt ms hms role
   have := committee_ok i sh (vis.map (·.entity)) rt (hD rt.id) (hC rt.id) hids
   rw [hms] at this
@@ -338,6 +342,31 @@ theorem limits_hold (i : Inputs) (sh : Shuffles) (m : VMap) (vis : List Node)
   cases role with
   | worker => exact this.1.2.1.1
   | backup => exact this.2.1.1
+
+/-- **Non-positive limits are unreachable.**  Genesis-valid parameters stay with `MinValidators ≥ 1`,
+`MaxValidators ≥ 1`, `MaxValidatorsPerEntity ≥ 1` under every sequence of governance parameter-change
+proposals, accepted or rejected (`ConsensusParameterChanges.SanityCheck` + `Apply`; the per-entity limit
+cannot be changed at all). -/
+theorem reachable_limits_positive (p : Params) (cs : List ParamChange) (h : genesisValid p = true) :
+    genesisValid (cs.foldl applyChange p) = true := by
+  induction cs generalizing p with
+  | nil => exact h
+  | cons c cs ih =>
+    apply ih
+    unfold applyChange
+    split
+    · rename_i hacc
+      unfold changeAccepted at hacc
+      unfold genesisValid at h ⊢
+      simp only [Bool.and_eq_true, decide_eq_true_eq] at h hacc ⊢
+      refine ⟨⟨?_, ?_⟩, h.2⟩
+      · cases hc : c.minValidators with
+        | none => simpa using h.1.1
+        | some v => have := hacc.1.2; rw [hc] at this; simpa using this
+      · cases hc : c.maxValidators with
+        | none => simpa using h.1.2
+        | some v => have := hacc.2; rw [hc] at this; simpa using this
+    · exact h
 
 /-! ## validator updates -/
 
@@ -451,15 +480,11 @@ def modelOutputs (i : Inputs) (sh : Shuffles) (prev : VMap) : Option Outputs :=
         updates := diffValidators prev m }
   | _ => none
 
-/-- **The model satisfies the executable specification.**  For every registry, stake distribution,
-parameter setting, runtime list, previous validator set and every choice of shuffles that are
-permutations: whatever an epoch transition of the model produces passes `ValidElection` — the predicate
-the harness evaluates on the outputs of the real scheduler.  (`strict := false`: the validator count is
-bounded by `max MaxValidators 1`, see `maxValidators_nonpositive_elects_one`.) -/
-theorem model_satisfies_spec (i : Inputs) (sh : Shuffles) (prev : VMap) (o : Outputs)
+theorem model_satisfies_spec_any (i : Inputs) (sh : Shuffles) (prev : VMap) (o : Outputs) (strict : Bool)
+    (hstrict : strict = true → 1 ≤ i.p.maxValidators)
     (hsh : ShufflesArePerms i sh) (hreg : RegistryUnique i) (hprev : (keysOf prev).Nodup)
     (h : modelOutputs i sh prev = some o) :
-    ValidElection i false o = true := by
+    ValidElection i strict o = true := by
   unfold modelOutputs at h
   have hv : (electAll i.p i.st sh i.epoch i.all i.runtimes).validators = validatorsOf i sh := rfl
   rw [hv] at h
@@ -480,7 +505,11 @@ theorem model_satisfies_spec (i : Inputs) (sh : Shuffles) (prev : VMap) (o : Out
     refine ⟨⟨?_, ?_⟩, ?_⟩
     · unfold validatorsOk
       simp only [Bool.and_eq_true]
-      refine ⟨⟨⟨hkd, ?_⟩, limits_hold_validators i sh m vis hsh.entities hok⟩,
+      have hlim : validatorLimitsOk i.p strict m = true := by
+        cases strict with
+        | false => exact limits_hold_validators i sh m vis hsh.entities hok
+        | true => exact limits_hold_validators_strict i sh m vis hsh.entities (hstrict rfl) hok
+      refine ⟨⟨⟨hkd, ?_⟩, hlim⟩,
         stake_order i sh m vis hsh.entities hsh.validators hreg.consensus hok⟩
       apply elected_eligible_validators i sh m vis _ hok
       intro x hx
@@ -512,6 +541,25 @@ theorem model_satisfies_spec (i : Inputs) (sh : Shuffles) (prev : VMap) (o : Out
       · simp at hpw; omega
       · have := (power_in_range _ _ _ hpw).1; omega
   · simp at h
+
+/-- **The model satisfies the executable specification.**  For every registry, stake distribution,
+runtime list, previous validator set, every parameter setting with `MaxValidators ≥ 1` (all reachable
+ones, `reachable_limits_positive`) and every choice of shuffles that are permutations: whatever an epoch
+transition of the model produces passes `ValidElection` with the configured limits — the predicate the
+harness evaluates on the outputs of the real scheduler. -/
+theorem model_satisfies_spec (i : Inputs) (sh : Shuffles) (prev : VMap) (o : Outputs)
+    (hmax : 1 ≤ i.p.maxValidators)
+    (hsh : ShufflesArePerms i sh) (hreg : RegistryUnique i) (hprev : (keysOf prev).Nodup)
+    (h : modelOutputs i sh prev = some o) :
+    ValidElection i true o = true :=
+  model_satisfies_spec_any i sh prev o true (fun _ => hmax) hsh hreg hprev h
+
+/-- For unreachable parameter values too, with the count bound `max MaxValidators 1`. -/
+theorem model_satisfies_spec_lenient (i : Inputs) (sh : Shuffles) (prev : VMap) (o : Outputs)
+    (hsh : ShufflesArePerms i sh) (hreg : RegistryUnique i) (hprev : (keysOf prev).Nodup)
+    (h : modelOutputs i sh prev = some o) :
+    ValidElection i false o = true :=
+  model_satisfies_spec_any i sh prev o false (fun h => by simp at h) hsh hreg hprev h
 
 /-! ## elect_deterministic -/
 
@@ -668,8 +716,8 @@ example : (runHistory demoPrev (toPMap demoPrev)
     [(106, 410), (103, 6)] := by decide
 
 /-- the master theorem applies to the demo epoch (its hypotheses are satisfiable) … -/
-example : ∀ o, modelOutputs demo idSh demoPrev = some o → ValidElection demo false o = true :=
-  fun o h => model_satisfies_spec demo idSh demoPrev o demo_shuffles demo_registry (by decide) h
+example : ∀ o, modelOutputs demo idSh demoPrev = some o → ValidElection demo true o = true :=
+  fun o h => model_satisfies_spec demo idSh demoPrev o (by decide) demo_shuffles demo_registry (by decide) h
 
 /-- … and the specification is not trivially true: electing the ineligible node 4 (escrow one below its
 claims), exceeding the per-entity limit, or dropping the removal from the updates is rejected. -/
@@ -679,7 +727,7 @@ example : validatorEntryOk demo (105, ⟨5, 40, 400⟩) = false := by decide   -
 
 example : validatorEntryOk demo (107, ⟨7, 20, 6⟩) = false := by decide     -- expired
 
-example : validatorLimitsOk demo.p false [(101, ⟨1, 10, 200⟩), (102, ⟨2, 10, 200⟩)] = false := by decide
+example : validatorLimitsOk demo.p true [(101, ⟨1, 10, 200⟩), (102, ⟨2, 10, 200⟩)] = false := by decide
 
 example : stakeOrderOk demo [(103, ⟨3, 20, 6⟩), (101, ⟨1, 10, 200⟩)] = false := by decide
 
@@ -691,7 +739,14 @@ example : committeeOk demo [40, 10] demoRt [(.worker, demoNodes[0]), (.worker, d
 
 example : committeeOk demo [40, 10] demoRt [(.worker, demoNodes[0]), (.worker, demoNodes[2]), (.backup, demoNodes[2])] = false := by decide
 
-/-- the boundary: `MaxValidators = 0` still elects one validator -/
+/-- parameter changes: non-positive limits are rejected and change nothing, valid ones apply -/
+example : applyChange demo.p { maxValidators := some 0 } = demo.p ∧
+    applyChange demo.p { minValidators := some (-1), maxValidators := some 5 } = demo.p ∧
+    (applyChange demo.p { maxValidators := some 5 }).maxValidators = 5 ∧ genesisValid demo.p = true := by decide
+
+/-- the boundary of the election function (unreachable since the parameter validation): `MaxValidators = 0`
+still elects one validator, which the strict specification rejects -/
+example : validatorLimitsOk { demo.p with maxValidators := 0 } true [(106, ⟨6, 40, 400⟩)] = false := by decide
 example : (match validatorsOf { demo with p := { demo.p with maxValidators := 0 } } idSh with
     | .ok m _ => m.length | _ => 0) = 1 := by decide
 
